@@ -200,6 +200,13 @@ def codecs(ctx, prog):
     R.ctor_stores(ctx, "C05-D1/STORE", f"{T}.TXORef.__init__", {"tx_ref": "tx_ref", "position": "position"}, why)
     R.ctor_stores(ctx, "C05-D1/STORE", f"{T}.Transaction.__init__", {"version": "version", "locktime": "locktime", "_raw": "raw"}, why, defaults={"version": 1, "locktime": 0, "raw": None})
     ii = ctx.fa(f"{T}.Input.__init__")
+    # coinbase data and input script share one wire field: the constructor files the `script` argument under exactly one of the two, by the outpoint being null
+    for field, cond in (("coinbase", "txo_ref.is_null"), ("script", "not txo_ref.is_null")):
+        ws = [a for a in ii.stmts(ast.Assign) if any(unparse(t) == f"self.{field}" for t in a.targets)]
+        ok = len(ws) == 1 and isinstance(ws[0].value, ast.IfExp) and dotted(ws[0].value.body) == "script" and is_const(ws[0].value.orelse, None) and R.same_test(ws[0].value.test, cond) \
+            and any(s_ is ws[0] for s_ in ii.fi.node.body)
+        ctx.ob("C05-D1/STORE", ok, ii.site(ws[0]) if ws else ii.site(), f"Input.{field} is the `script` argument exactly when `{cond}`, else None", func=ii.fi.qualname,
+               key=f"C05-D1/STORE|Input|{field}")
     sp = [c for c in ii.calls() if R._is_super_call(c, "__init__")]
     ok = len(sp) == 1 and [dotted(a) for a in sp[0].args] == ["tx_ref", "position"] and not sp[0].keywords
     ctx.ob("C05-D1/STORE", ok, ii.site(), "Input hands (tx_ref, position) — its own place in a transaction, not the spent outpoint — to the base constructor", func=ii.fi.qualname, key="C05-D1/STORE|Input|super")
